@@ -778,6 +778,8 @@ func (l heapLoc) has(r string) string {
 // havocWrites replaces the heaps in ws by fresh versions; with a modifies
 // clause, everything outside it (among objects existing before) is preserved.
 func (e *Exec) havocWrites(fr *frame, st *State, ws map[string]bool, mods []heapLoc, spec *FuncSpec, pos token.Pos, callee string) {
+	noFrame := e.noFrameHeaps
+	e.noFrameHeaps = nil
 	if ws[wsAll] {
 		if e.spec != nil && e.spec.HasMod && !e.modAll {
 			e.oblige(fr, st, "frame-call:"+shortName(callee), "callee "+callee+" has unknown effects; cannot show they stay inside `modifies`", pos, "false")
@@ -846,6 +848,13 @@ func (e *Exec) havocWrites(fr *frame, st *State, ws map[string]bool, mods []heap
 		}
 		old, nw := e.havocHeapTyped(st, name, st.nextRef)
 		if e.heapInfos[name].kind == 'g' {
+			continue
+		}
+		if noFrame[name] {
+			// written by a callback passed to the callee: no frame is known
+			if e.spec != nil && e.spec.HasMod && !e.modAll {
+				e.oblige(fr, st, "frame-call:"+shortName(callee), "a callback passed to "+callee+" may write "+name, pos, "false")
+			}
 			continue
 		}
 		if hasMod && spec.HasMod {
@@ -952,6 +961,24 @@ func (e *Exec) contractCall(fr *frame, st *State, callee *ssa.Function, spec *Fu
 		e.specWrites(callee, spec, ws)
 		for _, m := range mods {
 			ws[m.heap] = true
+		}
+	}
+	// closures passed to a function known only by contract may be called by
+	// it any number of times: their effects are added, without a frame
+	if callee == nil || spec.Extern || spec.Trusted || callee.Blocks == nil {
+		for _, a := range args {
+			if a.Clo != nil {
+				if e.noFrameHeaps == nil {
+					e.noFrameHeaps = map[string]bool{}
+				}
+				for k := range e.writeSet(a.Clo.Fn) {
+					ws[k] = true
+					if k != wsAlloc && k != wsFreshAll && k != wsAll {
+						e.noFrameHeaps[k] = true
+					}
+				}
+				e.trust("callback " + funcKey(a.Clo.Fn) + " passed to " + key + ": modelled as called any number of times (its write set is havoced)")
+			}
 		}
 	}
 	// caller's frame: callee's declared locations must be inside it
